@@ -70,7 +70,7 @@ def families(quick):
                     fams.append(family(5, 6, 3, 3, 3, 4))  # 4095 masks
                 else:
                     fams.append(family(6, 7, kh, kw, 3, 3))
-                    fams.append(family(5, 6, kh, kw, 2, 3, dy=1, dx=1))
+                    fams.append(family(5, 7, kh, kw, 2, 3, dy=1, dx=1))  # off-centre window
     return fams
 
 
@@ -366,7 +366,7 @@ def random_instances(rng, n, max_side=9):
 # ------------------------------------------------------------------------------------------------
 def describe(rec):
     s = f"{rec['api']}{'/' + rec['kind'] if 'kind' in rec else ''} on {rec['h']}x{rec['w']} frame, kernel {rec['kh']}x{rec['kw']} " \
-        f"{rec.get('variant', '')} k={rec.get('k')}, unmasked={rec['u']}"
+        f"k={rec.get('k')}, unmasked={rec['u']} ({rec.get('variant', '')} instance)"
     if rec.get("err"):
         s += f" raised {rec['err']}"
     return s
